@@ -244,6 +244,11 @@ func newEllipse(node *cascadedNode, _ *svgContext) (drawable, error) {
 		return nil, err
 	}
 
+	// a negative radius is invalid : the element is not rendered
+	if out.rx.V < 0 || out.ry.V < 0 {
+		out.rx, out.ry = Value{}, Value{}
+	}
+
 	return out, nil
 }
 
